@@ -10,7 +10,7 @@ from microschc.binary.buffer import Buffer, Padding
 from microschc.parser.parser import PacketParser
 from microschc.protocol import ComputeFunctions
 from microschc.protocol.compute import ComputeFunctionType
-from microschc.rfc8724 import RuleFieldDescriptor, MatchMapping, RuleDescriptor
+from microschc.rfc8724 import DirectionIndicator, RuleFieldDescriptor, MatchMapping, RuleDescriptor
 from microschc.rfc8724 import CompressionDecompressionAction as CDA
 from microschc.rfc8724extras import ParserDefinitions
 
@@ -56,7 +56,7 @@ def _decode_length(schc_packet: Buffer) -> Tuple[int, int]:
     return encoded_length_value, 28
 
 
-def decompress(schc_packet: Buffer, rule_descriptor: RuleDescriptor, unparser: PacketParser=None) -> Buffer:
+def decompress(schc_packet: Buffer, rule_descriptor: RuleDescriptor, unparser: PacketParser=None, direction: DirectionIndicator=None) -> Buffer:
     """
         Decompress the packet fields following the rule's compression actions.
         See section 7.2 of [1].
@@ -72,7 +72,11 @@ def decompress(schc_packet: Buffer, rule_descriptor: RuleDescriptor, unparser: P
     field_residue: Buffer
     residue_bitlength: int
     decompressed_field: Buffer
-    for rf_position, rf in enumerate(rule_descriptor.field_descriptors):
+    # when the packet direction is given, only the field descriptors that apply to it were used by the compressor
+    rule_fields: List[RuleFieldDescriptor] = rule_descriptor.field_descriptors
+    if direction is not None:
+        rule_fields = [rf for rf in rule_fields if rf.direction in {direction, DirectionIndicator.BIDIRECTIONAL}]
+    for rf_position, rf in enumerate(rule_fields):
         residue_bitlength = 0
         decompressed_field = Buffer(content=b'', length=0, padding=Padding.RIGHT)
         if rf.compression_decompression_action == CDA.NOT_SENT:
